@@ -280,6 +280,9 @@ func (fr *Frame) load(addr Val, pos token.Pos, hint string) Val {
 				if vc.e.nonNilGlobal[addr.Glob] || extErr {
 					d.Rng = sAnd(d.Rng, sNot(sEq(sApp("i-tag", n), "0")))
 				}
+				if ln, ok := vc.e.globalSliceLen[addr.Glob]; ok && vc.e.roGlobals[addr.Glob] {
+					d.Rng = sAnd(d.Rng, sEq(sApp("s-len", n), sInt(ln)), sNot(sEq(sApp("s-arr", n), "0")))
+				}
 				vc.defs = append(vc.defs, d)
 				vc.defIdx[n] = d
 			}
